@@ -149,6 +149,9 @@ func H_C14_Ops() {
 	if vrt.Thorough() {
 		steps = 4
 		universe = append(universe, []byte{})
+	} else if vrt.Choose("kb.empty", 2) == 1 {
+		// quick tier: the second key is a symbolic byte or the empty (non-nil) key
+		universe[1] = []byte{}
 	}
 	vRunOps(ms, model, steps, universe, vAllOps)
 	vCheckIteration(ms, model)
@@ -193,6 +196,9 @@ func H_C14_Flush() {
 	if vrt.Thorough() {
 		steps = 4
 		universe = append(universe, []byte{})
+	} else if vrt.Choose("kb.empty", 2) == 1 {
+		// quick tier: the second key is a symbolic byte or the empty (non-nil) key
+		universe[1] = []byte{}
 	}
 	vRunOps(ms, model, steps, universe, []int{1, 2, 4}) // Upsert, Delete, Tombstone
 	want := model.sorted()
